@@ -252,6 +252,18 @@ func runSolver(ctx context.Context, sd solverDef, file string, timeoutS, seed in
 // raceSolvers: z3-new alone first with a short budget; if undecided, all
 // three in parallel with the full budget. Returns the first definite answer
 // (unsat/sat) and all results seen.
+var useAlts = false
+
+func raceSolversAlt(file string, timeoutS, seed int) (SolverResult, []SolverResult) {
+	altMu.Lock()
+	defer altMu.Unlock()
+	useAlts = true
+	defer func() { useAlts = false }()
+	return raceSolvers(file, timeoutS, seed, false)
+}
+
+var altMu sync.Mutex
+
 func raceSolvers(file string, timeoutS, seed int, wantTwo bool) (SolverResult, []SolverResult) {
 	var all []SolverResult
 	quickT := 3
@@ -289,6 +301,24 @@ func raceSolvers(file string, timeoutS, seed int, wantTwo bool) (SolverResult, [
 			definite = append(definite, res)
 			if !wantTwo || len(definite) >= 2 {
 				cancel()
+				break
+			}
+		}
+	}
+	if len(definite) == 0 && useAlts {
+		// undecided: "unknown" depends on heuristics; retry z3 with other configurations (cheap
+		// when the answer comes back quickly)
+		alts := [][]string{{"smt.mbqi=false"}, {"smt.random_seed=" + fmt.Sprint(seed+7)}, {"smt.qi.eager_threshold=100"}, {"smt.arith.solver=2"}}
+		for _, extra := range alts {
+			at := timeoutS
+			if at > 6 {
+				at = 6
+			}
+			r := runSolver(context.Background(), solvers[0], file, at, seed, extra...)
+			r.Solver = "z3-new(" + strings.Join(extra, ",") + ")"
+			all = append(all, r)
+			if r.Verdict == "unsat" {
+				definite = append(definite, r)
 				break
 			}
 		}
